@@ -855,7 +855,7 @@ func (r *runner) exec(op Op, last bool) error {
 	return r.audit(n <= 24 || last || r.step%8 == 0 || m.ht.grew != grewBefore)
 }
 
-const caseTimeout = 20 * time.Second
+const caseTimeout = 10 * time.Second
 
 var (
 	statMu    sync.Mutex
